@@ -11,19 +11,21 @@ NOTE = ("Trusted: Lean 4.33.0 kernel (thorough tier also leanchecker); axioms pr
         "lean/PrimaiteModel/Gen from /repo; the correspondence rig and the Lean driver's line parsing. Modelled, not verified: "
         "CPython/pydantic semantics, ipaddress, gymnasium, numpy/random, floats, logging/IO. ")
 
-CHECKS = {
-    "C07": dict(
-        text="Lean 4 proof, for every rule list, packet and edit sequence, that the model of AccessControlList gives the verdict of the "
-             "lowest-positioned rule whose specified fields all match (wildcard masks characterised bit by bit), else the implicit action; "
-             "that exactly the decider's hit counter is incremented and counters never influence verdicts; that add/remove touch only the "
-             "addressed slot, reject out-of-range positions without change, and commute on distinct positions. Tie: constants, bounds and "
-             "scan shape regenerated from router.py (Gen/Acl.lean, obligation C07_gen_bounds) + differential rig R-acl through the Python "
-             "API, the request API and Router.from_config.",
-        note=NOTE + "C07-specific: Frame/IPPacket construction and pydantic coercion of ports/protocols are exercised by the rig, not modelled.",
-        technique="Lean 4 theorems over an executable ACL model; model tied by regenerated constants and a differential rig",
-        design_ref="5/C07"),
-}
+def load_checks():
+    """Each harness/props/cXX.py carries a literal `MANIFEST = {...}` (text, note, technique, design_ref); read without importing."""
+    import ast
+    out = {}
+    for f in sorted((VERIF / "harness" / "props").glob("c[0-9][0-9].py")):
+        tree = ast.parse(f.read_text())
+        for st in tree.body:
+            if isinstance(st, ast.Assign) and ast.unparse(st.targets[0]) == "MANIFEST":
+                d = ast.literal_eval(st.value)
+                d["note"] = NOTE + d.get("note", "")
+                out[f.stem.upper()] = d
+    return out
 
+
+CHECKS = load_checks()
 NOT_YET = {}
 
 
